@@ -76,7 +76,8 @@ AttrOnlyFile == /\ Idle /\ IsNone(file) /\ IsNone(cur) /\ Len(prog) < MaxFiles /
                 /\ \E fa \in Pick({<<a>> : a \in ForeignAttrs} \cup {<<a, b>> : a \in ForeignAttrs, b \in ForeignAttrs}) :
                      prog' = Append(prog, [mod |-> <<>>, fattrs |-> fa, mattrs |-> <<>>, defs |-> <<>>])
                 /\ U(<<file, cur, pend, ty, tops, cat, scope, prevEnum, counter, ch, done>>)
-EndFile == /\ Idle /\ ~IsNone(file) /\ IsNone(cur) /\ Len(file.defs) >= 1
+\* (a file may declare its module and nothing else: allowed in a quarter of the programs)
+EndFile == /\ Idle /\ ~IsNone(file) /\ IsNone(cur) /\ (Len(file.defs) >= 1 \/ ch.seed % 4 = 1)
            /\ prog' = Append(prog, file) /\ file' = NoFile /\ scope' = <<>>
            /\ U(<<cur, pend, ty, tops, cat, prevEnum, counter, ch, done>>)
 CanBegin == Idle /\ ~IsNone(file) /\ IsNone(cur) /\ Len(file.defs) < MaxDefs
